@@ -338,6 +338,10 @@ pub struct Opts {
     /// the start of every thread body is a scheduling point of its own (for bodies that do visible
     /// things - dropping an Arc, closing a descriptor - before their first hooked operation)
     pub start_points: bool,
+    /// endurance runs: when only yielding threads can move they are re-run this many times (instead
+    /// of the 64 after which a livelock is declared); then the thread waiting in
+    /// `await_quiescence` - if any - is let go and the count starts again. 0 = off.
+    pub endurance: u64,
 }
 
 pub trait Monitor {
@@ -372,6 +376,8 @@ pub struct Exec {
     pub switches: u64,
     pub signals_delivered: u64,
     pub stale_taken: u64,
+    /// how often the write barrier took its second generation switch (event `barrier_reflip`)
+    pub reflips: u64,
     pub interleaved: bool,
     /// events the default access mapping treats as racy-checkable
     pub race_check: bool,
@@ -520,6 +526,7 @@ impl Exec {
             switches: 0,
             signals_delivered: 0,
             stale_taken: 0,
+            reflips: 0,
             interleaved: false,
             race_check: true,
             named: Vec::new(),
@@ -626,7 +633,7 @@ impl Exec {
                 fail(format!("C03: code running inside a signal handler frame {}", b));
             }
         }
-        if self.log.len() > 2_000_000 {
+        if self.log.len() as u64 > 2_000_000 + 8 * self.opts.endurance {
             self.log.push(ev);
             fail("livelock: more than 2 million events in one execution (a loop that makes no scheduling step)".into());
         }
@@ -854,7 +861,14 @@ fn schedule(t: usize) {
                 }
                 e.forced_reruns += 1;
                 e.last_forced = forced[0];
-                if e.forced_reruns > 64 {
+                let limit = if e.opts.endurance > 0 { e.opts.endurance } else { 64 };
+                let waiter = (1..n).find(|&x| e.threads[x].pending == Pending::Quiescence);
+                if e.forced_reruns as u64 > limit && e.opts.endurance > 0 && waiter.is_some() {
+                    // the spinners have been given their chance: what they wait for happens now
+                    e.forced_reruns = 0;
+                    forced.clear();
+                    forced.push(waiter.unwrap());
+                } else if e.forced_reruns as u64 > limit {
                     let x = forced[0];
                     fail(format!(
                         "livelock: only yielding threads remain runnable and none makes progress (thread {} '{}' spinning at {}:{})",
@@ -1401,6 +1415,7 @@ fn hook_event(tag: &'static str, a: u64, b: u64) {
             }
             e.live_snapshots.remove(&a);
         }
+        "barrier_reflip" => e.reflips += 1,
         _ => {}
     }
     e.push_ev(tag, a, b);
@@ -1582,6 +1597,7 @@ pub struct Outcome {
     pub switches: u64,
     pub signals: u64,
     pub stale: u64,
+    pub reflips: u64,
     pub log: Vec<Ev>,
     pub kinds: Vec<Vec<AltKind>>,
     pub violation: Option<String>,
@@ -1941,6 +1957,7 @@ pub fn run_one<S: Sync + Send + 'static>(sc: &Scenario<S>, choices: &[u32], keep
         switches: e.switches,
         signals: e.signals_delivered,
         stale: e.stale_taken,
+        reflips: e.reflips,
         log: if keep_log || e.violation.is_some() { std::mem::take(&mut e.log) } else { vec![] },
         violation: e.violation.take(),
         diverged: e.diverged,
